@@ -523,6 +523,25 @@ type rxNative struct {
 
 // rxFindSubmatch models FindStringSubmatch on a symbolic subject.
 func (e *Exec) rxFindSubmatch(st *State, rn *rxNative, s *Str) Outcome {
+	return e.rxFindSubmatchX(st, rn, s, false)
+}
+
+// participates: whether the capture group of piece pc takes part in a match that gives it lo..hi.
+// A plain group always does; an optional group "(body)?" does when it matched something, and with the empty
+// string only when it is greedy and its body can match the empty string (the greedy alternative is tried first).
+func (e *Exec) rxParticipates(pc rxPiece, lo, hi *sym.Term) *sym.Term {
+	if pc.re.Op == syntax.OpCapture {
+		return e.C.True
+	}
+	nonEmpty := e.C.Slt(lo, hi)
+	if pc.re.Op == syntax.OpQuest && pc.re.Flags&syntax.NonGreedy == 0 && nullable(pc.re.Sub[0]) {
+		return e.C.True
+	}
+	return nonEmpty
+}
+
+// rxFindSubmatchX models FindStringSubmatch (index=false) and FindStringSubmatchIndex (index=true).
+func (e *Exec) rxFindSubmatchX(st *State, rn *rxNative, s *Str, index bool) Outcome {
 	c := e.C
 	p, err := e.rxCompile(rn.pattern)
 	if err != nil {
@@ -556,6 +575,23 @@ func (e *Exec) rxFindSubmatch(st *State, rn *rxNative, s *Str) Outcome {
 				e.endPath(s2, EndInfeasible)
 				return nil, false
 			}
+		}
+		if index {
+			minus := e.i64(-1)
+			arr := make([]Value, 2*(sh.ncap+1))
+			for i := range arr {
+				arr[i] = minus
+			}
+			arr[0], arr[1] = bs[0], bs[len(bs)-1]
+			for i, pc := range sh.pieces {
+				if pc.capture > 0 {
+					part := e.rxParticipates(pc, bs[i], bs[i+1])
+					arr[2*pc.capture] = c.Ite(part, bs[i], minus)
+					arr[2*pc.capture+1] = c.Ite(part, bs[i+1], minus)
+				}
+			}
+			p := s2.alloc(&ArrayV{E: arr}, nil, "intslice")
+			return &SliceV{Arr: p, Len: len(arr), Cap: len(arr)}, true
 		}
 		groups := make([]*Str, sh.ncap+1)
 		groups[0] = e.StrSlice(s, bs[0], bs[len(bs)-1])
@@ -673,6 +709,23 @@ func registerRegexp(m map[string]Intrinsic) {
 			return val(e.mkStringSlice(st, out))
 		}
 		return e.rxFindSubmatch(st, rn, s)
+	}
+	m["(*regexp.Regexp).FindStringSubmatchIndex"] = func(e *Exec, st *State, ci *CallInfo) Outcome {
+		rn := ci.Args[0].(*Native).V.(*rxNative)
+		s := sArg(ci, 1)
+		if s.IsConc {
+			res := rn.re.FindStringSubmatchIndex(s.Conc)
+			if res == nil {
+				return val(&SliceV{})
+			}
+			arr := make([]Value, len(res))
+			for i, r := range res {
+				arr[i] = e.i64(r)
+			}
+			p := st.alloc(&ArrayV{E: arr}, nil, "intslice")
+			return val(&SliceV{Arr: p, Len: len(arr), Cap: len(arr)})
+		}
+		return e.rxFindSubmatchX(st, rn, s, true)
 	}
 	m["(*regexp.Regexp).ReplaceAllString"] = func(e *Exec, st *State, ci *CallInfo) Outcome {
 		rn := ci.Args[0].(*Native).V.(*rxNative)
